@@ -1,4 +1,5 @@
 """C01 — every accepted IDL yields Go code that compiles (partial: see DESIGN.md C01)."""
+import re
 import vlib
 
 
@@ -30,9 +31,12 @@ class S(vlib.Spec):
         if case and case.get("kind") == "build":
             errs = " ".join(case.get("build_errors") or []) + " ".join(case.get("unparsable_files") or [])
             be = case.get("backend", "")
-            if "use_type_alias=false" in be and ("cannot use" in errs or "mismatched types" in errs) and code == 4:
-                # typedef of a base type generated as a defined type without conversions
-                return "C01-use_type_alias_false-base-typedef-conversions"
+            if "use_type_alias=false" in be and code == 4 and re.search(r"cannot use|mismatched types|has no field or method|invalid operation|cannot convert", errs):
+                # typedefs generated as defined types (type T int32 / type T S) without conversions or methods
+                return "C01-use_type_alias_false-typedef-as-defined-type"
+            texts = " ".join((case.get("program") or {}).get("files", {}).values())
+            if code == 4 and re.search(r"duplicate case 0|ReadField0 already declared|duplicate key 0", errs) and re.search(r"throws\s*\(\s*[^)]*\b0\s*:", texts):
+                return "C01-throws-id-0-collides-with-success"
             # refine by the shape of the failure so that a different defect is reported separately
             for key, tag in (("declared and not used", "unused-variable"), ("redeclared", "redeclared"), ("imported and not used", "unused-import"),
                              ("undefined:", "undefined-identifier"), ("newline in string", "newline-in-literal"), ("cannot use", "type-mismatch"),
